@@ -213,8 +213,18 @@ impl<L: Lit> Renumber<L> {
 
         for latch in &aig.latches {
             self.last_code += 2;
-            self.lit_map
-                .insert(latch.state, L::from_code(self.last_code));
+            let lit = latch.state;
+            // Latches are not part of `defs`, so a latch that redefines the constant, an input, an
+            // and gate or another latch has to be detected here.
+            if self.defs.contains_key(&lit)
+                || self.defs.contains_key(&L::from_code(1 ^ lit.code()))
+                || self
+                    .lit_map
+                    .insert(lit, L::from_code(self.last_code))
+                    .is_some()
+            {
+                return Err(AigStructureError::LitAlreadyDefined { lit });
+            }
         }
 
         if !self.config.trim {
